@@ -178,6 +178,7 @@ Inductive msg :=
 | MCertificate (lk : nat) (v : verdict)          (* parsed chain: key of the first certificate + validator's verdict *)
 | MCertificateEmpty                              (* a Certificate message without any certificate *)
 | MServerKeyExchange (params alg : nat) (sg : nat)
+| MServerKeyExchangeUnsigned (params : nat)      (* the message ends after the key-exchange parameters: no algorithm, no signature *)
 | MServerHelloDone
 | MClientKeyExchange
 | MCertificateVerify (alg : nat) (sg : nat)
@@ -198,7 +199,7 @@ Definition peer_ctx (c : pcfg) : nat :=
 
 (* message ids for the transcript *)
 Definition mid (m : msg) : nat :=
-  match m with MCertificate _ _ => 11 | MCertificateEmpty => 11 | MServerKeyExchange _ _ _ => 12 | MServerHelloDone => 14 | MClientKeyExchange => 16
+  match m with MCertificate _ _ => 11 | MCertificateEmpty => 11 | MServerKeyExchange _ _ _ => 12 | MServerKeyExchangeUnsigned _ => 12 | MServerHelloDone => 14 | MClientKeyExchange => 16
              | MCertificateVerify _ _ => 15 | MFinished _ => 20 end%nat.
 
 Section Machine.
@@ -240,6 +241,7 @@ Section Machine.
                  then {| ph := PWaitShd; leaf := leaf s; anon := anon s; tr := tr s ++ [mid m]; pops := PopSig k alg d sg :: pops s |}
                  else dead s a_SSL_ALERT_DECRYPT_ERROR
         end
+    | PWaitSke, MServerKeyExchangeUnsigned _ => dead s a_SSL_ALERT_DECODE_ERROR        (* tlsVerify: `if (end - c < 2) goto out_decode_error` *)
     | PWaitShd, MServerHelloDone => adv s m PWaitFin           (* the client answers with ClientKeyExchange, CCS, Finished *)
     | PWaitCke, MClientKeyExchange => adv s m PWaitCv          (* hsDecode.c 1308-1311: SSL_FLAGS_CLIENT_AUTH => CERTIFICATE_VERIFY *)
     | PWaitCv, MCertificateVerify alg sg =>
